@@ -159,6 +159,16 @@ class Runner():
                 "%s:%s" % (task.name, node.run_status)
             assert task.setup_tasks
 
+            # check result of setup-tasks
+            if node.ignored_deps:
+                node.run_status = 'ignore'
+                self.reporter.skip_ignore(task)
+                return False
+            if node.bad_deps:
+                bad_str = " ".join(n.task.name for n in node.bad_deps)
+                self._handle_task_error(node, UnmetDependency(bad_str))
+                return False
+
         try:
             self._get_task_args(task, tasks_dict)
         except Exception as exception:
